@@ -408,3 +408,122 @@ where
     }
 //@ end
 }
+
+// ---------------------------------------------------------------------------- Externals
+pub open spec fn sext_f<'a, N, Ix: IndexType>(k: int, directed: bool) -> spec_fn((usize, &'a Node<Option<N>, Ix>)) -> Option<NodeIndex<Ix>> {
+    |t: (usize, &'a Node<Option<N>, Ix>)| if t.1.weight is Some && t.1.next[k].0.ix() == end_ix::<Ix>() && (directed || t.1.next[1 - k].0.ix() == end_ix::<Ix>()) { Some(NodeIndex(Ix::spec_new(t.0))) } else { None }
+}
+
+//@ item src/graph_impl/stable_graph/mod.rs | - | struct Externals
+/// An iterator over either the nodes without edges to them or from them.
+/*+*/#[verifier::reject_recursive_types(N)]
+#[verifier::reject_recursive_types(Ix)]/*-*/
+pub struct Externals<'a, N: 'a, Ty, Ix: IndexType = DefaultIx> {
+    pub iter: iter::Enumerate<slice::Iter<'a, Node<Option<N>, Ix>>>,
+    pub dir: Direction,
+    pub ty: PhantomData<Ty>,
+}
+//@ end
+
+impl<'a, N: 'a, Ty: EdgeType, Ix: IndexType> Externals<'a, N, Ty, Ix> {
+    #[verifier::prophetic]
+    pub open spec fn rem(&self) -> Seq<NodeIndex<Ix>> { fm_seq(self.iter.remaining(), sext_f::<N, Ix>(self.dir.k(), Ty::spec_is_directed())) }
+}
+impl<'a, N: 'a, Ty: EdgeType, Ix: IndexType> vstd::std_specs::iter::IteratorSpecImpl for Externals<'a, N, Ty, Ix> {
+    open spec fn obeys_prophetic_iter_laws(&self) -> bool { self.iter.obeys_prophetic_iter_laws() }
+    #[verifier::prophetic]
+    open spec fn remaining(&self) -> Seq<NodeIndex<Ix>> { self.rem() }
+    open spec fn decrease(&self) -> Option<nat> { self.iter.decrease() }
+    open spec fn will_return_none(&self) -> bool { true }
+    open spec fn peek(&self, i: int) -> Option<NodeIndex<Ix>> { None }
+}
+
+//@ item src/graph_impl/stable_graph/mod.rs | - | impl<'a, N: 'a, Ty, Ix> Iterator for Externals<'a, N, Ty, Ix> where Ty: EdgeType, Ix: IndexType
+impl<'a, N: 'a, Ty, Ix> Iterator for Externals<'a, N, Ty, Ix>
+where
+    Ty: EdgeType,
+    Ix: IndexType,
+{
+    type Item = NodeIndex<Ix>;
+    // termination is NOT verified (it depends on the wrapped iterator obeying its laws)
+    /*+*/#[verifier::exec_allows_no_decreases_clause]/*-*/
+    fn next(&mut self) -> Option<NodeIndex<Ix>> {
+        let k = self.dir.index();
+        /*+*/let ghost f = sext_f::<N, Ix>(self.dir.k(), Ty::spec_is_directed());/*-*/
+        loop
+            /*+*/invariant k == self.dir.k(), self.dir == old(self).dir, f == sext_f::<N, Ix>(self.dir.k(), Ty::spec_is_directed()),
+                self.iter.obeys_prophetic_iter_laws() == old(self).iter.obeys_prophetic_iter_laws(),
+                self.iter.obeys_prophetic_iter_laws() ==> (self.iter.decrease() is Some <==> old(self).iter.decrease() is Some),
+                self.iter.obeys_prophetic_iter_laws() ==> fm_seq(self.iter.remaining(), f) == fm_seq(old(self).iter.remaining(), f),
+                self.iter.obeys_prophetic_iter_laws() && old(self).iter.decrease() is Some ==> self.iter.decrease()->Some_0 <= old(self).iter.decrease()->Some_0,/*-*/
+        {
+            /*+*/let ghost items = self.iter.remaining();/*-*/
+            match self.iter.next() {
+                None => /*+*/{ proof { if self.iter.obeys_prophetic_iter_laws() { assert(items.len() == 0); assert(fm_seq(items, f).len() == 0); lemma_fm_none(self.iter.remaining(), f); } }/*-*/ return None /*+*/}/*-*/,
+                Some((index, node)) => {
+                    /*+*/proof { Ix::eq_law(); if self.iter.obeys_prophetic_iter_laws() { assert(items.len() > 0 && items[0] == (index, node)); assert(self.iter.remaining() == items.drop_first()); } }/*-*/
+                    if node.weight.is_some()
+                        && node.next[k] == EdgeIndex::end()
+                        && (Ty::is_directed() || node.next[1 - k] == EdgeIndex::end())
+                    {
+                        return Some(NodeIndex::new(index));
+                    } else {
+                        continue;
+                    }
+                }
+            }
+        }
+    }
+    /*+*/#[verifier::external_body]/*-*/
+    fn size_hint(&self) -> (usize, Option<usize>) {
+        let (_, upper) = self.iter.size_hint();
+        (0, upper)
+    }
+}
+//@ end
+
+impl<N, E, Ty, Ix> StableGraph<N, E, Ty, Ix>
+where
+    Ty: EdgeType,
+    Ix: IndexType,
+{
+//@ item src/graph_impl/stable_graph/mod.rs | impl<N, E, Ty, Ix> StableGraph<N, E, Ty, Ix> where Ty: EdgeType, Ix: IndexType | fn externals
+    /// Return an iterator over either the nodes without edges to them
+    /// (`Incoming`) or from them (`Outgoing`).
+    pub fn externals(&self, dir: Direction) -> (r: Externals<N, Ty, Ix>)
+        /*+*/requires self.wf()
+        ensures r.obeys_prophetic_iter_laws(), r.decrease() is Some,
+            // exactly the live nodes without edges in direction dir (without any edge if the graph is undirected)
+            forall|a: NodeIndex<Ix>| r.remaining().contains(a) <==> (nlive(self.ns(), a.i())
+                && (if dir.k() == 0 { self.outs(-1)[a.i()].len() == 0 } else { self.inns(-1)[a.i()].len() == 0 })
+                && (Ty::spec_is_directed() || (self.outs(-1)[a.i()].len() == 0 && self.inns(-1)[a.i()].len() == 0)))/*-*/   // [stable_externals_exactly_live_nodes_without_edges]
+    {
+        /*+*/let r = {/*-*/ Externals {
+            iter: /*R:D23 self.raw_nodes().iter().enumerate() */ enumerate_slice(self.raw_nodes()) /*-*/,
+            dir,
+            ty: PhantomData,
+        } /*+*/};
+        proof {
+            let items = r.iter.remaining(); let k = dir.k(); let directed = Ty::spec_is_directed(); let f = sext_f::<N, Ix>(k, directed);
+            let ns = self.ns(); let es = self.es(); let o = self.outs(-1); let i_ = self.inns(-1);
+            assert(items =~= enum_items(ns));
+            assert forall|x: int| nlive(ns, x) implies (o[x].len() == 0 <==> ns[x].next[0].0.ix() == end_ix::<Ix>()) && (i_[x].len() == 0 <==> ns[x].next[1].0.ix() == end_ix::<Ix>()) by {
+                assert(slist(es, ns[x].next[0], 0, o[x])); assert(slist(es, ns[x].next[1], 1, i_[x]));
+                if o[x].len() > 0 { lemma_slist_range(es, ns[x].next[0], 0, o[x]); }
+                if i_[x].len() > 0 { lemma_slist_range(es, ns[x].next[1], 1, i_[x]); }
+            }
+            assert forall|a: NodeIndex<Ix>| r.remaining().contains(a) <==> (nlive(ns, a.i())
+                && (if dir.k() == 0 { o[a.i()].len() == 0 } else { i_[a.i()].len() == 0 })
+                && (directed || (o[a.i()].len() == 0 && i_[a.i()].len() == 0))) by {
+                lemma_fm_contains(items, f, a);
+                if r.remaining().contains(a) {
+                    let j = choose|j: int| 0 <= j < items.len() && f(#[trigger] items[j]) == Some(a);
+                    Ix::new_law(j as usize); assert(items[j] == (j as usize, &ns[j])); assert(a.i() == j);
+                }
+                if nlive(ns, a.i()) { let j = a.i(); Ix::new_law(j as usize); Ix::ix_inj(a.0, Ix::spec_new(j as usize)); assert(items[j] == (j as usize, &ns[j])); }
+            }
+        }
+        r/*-*/
+    }
+//@ end
+}
